@@ -155,13 +155,16 @@ def _release_lock_on_arr_writeability(arr: np.ndarray):
 
             _views_waiting_for_unlock[arr_id].remove(view_arr_id)
 
-            try:
-                view_arr = _array_tracker.pop(view_arr_id)()
+            view_ref = _array_tracker.get(view_arr_id)
+            view_arr = view_ref() if view_ref is not None else None
+            if view_arr is None or view_arr.base is not arr:
+                # view array is no longer available for unlocking; its
+                # id may since have been re-used by an unrelated array,
+                # which is not ours to un-track or unlock
                 if view_arr is None:
-                    continue
-            except KeyError:
-                # view array is no longer available for unlocking
+                    _array_tracker.pop(view_arr_id, None)
                 continue
+            _array_tracker.pop(view_arr_id)
 
             try:
                 view_arr.flags.writeable = True
